@@ -567,9 +567,9 @@ static void runC20(Case& c) {
 }
 
 static const vf::Prop kProps[] = {
-    {"C18", "fut", genC18, runC18, vf::kE1, 2500, 120000, "the functor ran on a waiting thread, or at least two get() calls were made"},
-    {"C19", "then", genC19, runC19, vf::kE1, 2500, 120000, "a then()/when_all()/when_any() registration overlapped the completion of an input"},
-    {"C20", "timed", genC20, runC20, vf::kE1, 4000, 150000, "the notification fell within 10% of the deadline, or spurious futex returns were injected"},
+    {"C18", "fut", genC18, runC18, vf::kE1, 6000, 200000, "the functor ran on a waiting thread, or at least two get() calls were made"},
+    {"C19", "then", genC19, runC19, vf::kE1, 6000, 200000, "a then()/when_all()/when_any() registration overlapped the completion of an input"},
+    {"C20", "timed", genC20, runC20, vf::kE1, 10000, 300000, "the notification fell within 10% of the deadline, or spurious futex returns were injected"},
 };
 
 int main(int argc, char** argv) {
